@@ -575,3 +575,28 @@ func BlockedOrBusy(r *Rec, msg string) *Fail {
 	r.Infra("a run only ended through a safety deadline while the machine was not responsive")
 	return nil
 }
+
+// Patience waits for a result that should arrive at once. After d without one it does not call that a block yet: a
+// machine shared with other checks has been seen to stall a single file operation for longer than 20 s. It waits a little
+// more if the machine answers promptly right now (a process round trip well under 100 ms), and up to 90 s more if it
+// does not; ok is false only when the result is still missing after that.
+func Patience[T any](r *Rec, ch <-chan T, d time.Duration) (v T, ok bool) {
+	select {
+	case v = <-ch:
+		return v, true
+	case <-time.After(d):
+	}
+	extra := 4 * time.Second
+	t0 := time.Now()
+	exec.Command("/bin/true").Run()
+	if time.Since(t0) >= 100*time.Millisecond {
+		extra = 90 * time.Second
+	}
+	select {
+	case v = <-ch:
+		r.Class("slow-machine:result-arrived-after-the-watchdog", 1)
+		return v, true
+	case <-time.After(extra):
+		return v, false
+	}
+}
